@@ -191,8 +191,8 @@ theorem C02_kv_tag_prefix_since_witness :
     let s := applyTasks init [.add (pEv 1 1700000100 [97]), .add (pEv 2 1700000000 [97, 98])]
     let f : Filter := { tags := [([116], [[97]])], since := some 1700000050 }
     matchesSpec true f (pEv 1 1700000100 [97]) = true ∧
-    (planFilter f none).map (executePlan s) = some [] ∧
-    (planFilter { f with since := none } none).map (executePlan s) = some [(pEv 1 1700000100 [97]).id] := by
+    (planFilter f none 20).map (executePlan s) = some [] ∧
+    (planFilter { f with since := none } none 20).map (executePlan s) = some [(pEv 1 1700000100 [97]).id] := by
   decide +kernel
 
 end NostrRelay.KV
